@@ -14,7 +14,11 @@ for d in sorted(glob.glob(os.path.join(VERIF, "seeded", "*"))):
     v = m.get("verification", {})
     keys = v.get("recheck_keys") or v.get("check_keys") or []
     caught = v.get("recheck_caught", v.get("caught"))
+    other = v.get("caught_by_other_check")
     first = "yes" if v.get("caught") else ("no -> strengthened, now yes" if v.get("recheck_caught") else "NO")
+    if first == "NO" and other and other.get("exit") == 1:
+        first = "no -> %s strengthened, now yes (by %s)" % (other.get("check"), other.get("check"))
+        keys = other.get("keys") or keys
     title = (m.get("title") or "").replace("|", "\\|")
     if len(title) > 150:
         title = title[:147] + "..."
